@@ -130,6 +130,7 @@ func GenC07(t *rapid.T) ScriptCase {
 		case "complete":
 			genResult(t, markedResultKinds, &st)
 			st.NoWait = rapid.IntRange(0, 3).Draw(t, "nowait") == 0
+			st.Oversize = rapid.IntRange(0, 3).Draw(t, "oversize") == 0
 		case "flush":
 			st.Target = rapid.SampledFrom([]string{"parked", "parked", "parked", "parked", "inflight", "answered", "unused"}).Draw(t, "target")
 			st.Release = rapid.SampledFrom([]string{"", "", "before", "after"}).Draw(t, "release")
